@@ -332,6 +332,74 @@ def scenario_stale_leader(binary, rng, burst=6):
     return obs
 
 
+def scenario_routed_failures(binary, rng):
+    """writes RECEIVED BY A FOLLOWER while the leader it routes them to cannot answer.
+    (a) the leader is frozen (SIGSTOP): a publish and a remove at a follower, client time-out 8 s - the routed rpc gets no
+        answer; an answer of success is legitimate only if the write is committed, so the frozen leader is then killed
+        (-9) and the surviving majority must serve every acknowledged write;
+    (b) right after the kill a publish at the same follower (it may still route to the dead address): an error answer
+        must leave that follower serving what the others serve (no uncommitted value kept)."""
+    obs = {"scenario": "routed_failures", "errors": [], "history": []}
+    with Cluster(binary, nodelib.DEFAULT_WORKROOT, "rf") as c:
+        n1 = c.node(1, auto_init=True)
+        n1.start()
+        n1.wait_ready()
+        nodes = [n1]
+        for i in (2, 3):
+            n = c.node(i, join_addr=n1.raft_addr)
+            n.start()
+            try:
+                n.wait_ready(need_leader=False)
+            except RuntimeError as e:
+                obs["errors"].append(str(e)[:300])
+            m, _ = wait_member(n1, i)
+            if not m:
+                obs["errors"].append("node %d did not join" % i)
+            nodes.append(n)
+        keys = ["ra", "rb", "rc", "rd"]
+        i = 0
+        for k in keys:
+            st, body = n1.publish(k, GROUP, "base-" + k, timeout=10.0)
+            obs["history"].append({"i": i, "node": 1, "op": "pub", "key": k, "value": "base-" + k, "status": st, "body": body[:60]})
+            i += 1
+        for n in nodes:
+            ok, _ = wait_serves(n, keys[-1], "base-" + keys[-1], 30.0)
+            if not ok:
+                obs["errors"].append("node %d does not follow" % n.node_id)
+        leader = find_leader(nodes) or n1
+        others = [n for n in nodes if n is not leader]
+        f = rng.choice(others)
+        obs["leader"], obs["follower"] = leader.node_id, f.node_id
+        leader.sigstop()
+
+        def rec(op, k, v, res):
+            nonlocal i
+            st, body = res
+            obs["history"].append({"i": i, "node": f.node_id, "op": op, "key": k, "value": v, "status": st, "body": (body or "")[:60]})
+            i += 1
+        t = time.time()
+        rec("pub", "ra", "routed-1", f.publish("ra", GROUP, "routed-1", timeout=8.0))
+        obs["publish_frozen_s"] = round(time.time() - t, 1)
+        rec("del", "rc", None, f.delete_config("rc", GROUP, timeout=8.0))
+        obs["follower_serves_frozen"] = read_all(f, [("", k) for k in keys])
+        leader.kill9()
+        rec("pub", "rb", "routed-2", f.publish("rb", GROUP, "routed-2", timeout=8.0))
+        obs["follower_serves_killed"] = read_all(f, [("", k) for k in keys])
+        newl, secs = wait_until(lambda: find_leader(others), 30.0)
+        obs["new_leader"] = newl.node_id if newl else None
+        if newl:
+            rec("pub", "rd", "after-election", newl.publish("rd", GROUP, "after-election", timeout=10.0))
+            newl.publish("probe", GROUP, "q", timeout=10.0)
+            for n in others:
+                ok, _ = wait_serves(n, "probe", "q", 40.0)
+                if not ok:
+                    obs["errors"].append("node %d does not serve the probe after the election" % n.node_id)
+        time.sleep(1.0)
+        obs["final"] = {str(n.node_id): read_all(n, [("", k) for k in keys]) for n in others}
+        obs["fatal"] = fatal_storage_errors(c)
+    return obs
+
+
 def scenario_no_majority(binary, rng):
     """3 voters formed by joins, first leader; BOTH followers frozen: a publish cannot be committed by a
     majority and must not be answered with success.  If it is, the leader is then killed and the
